@@ -143,3 +143,26 @@ more5("C14", "a failure is not reported with an error variable that is nil at th
 more5("C15", "the error of a read is looked at before a short count is taken for the end of the input; nothing changes the filesystem before signing succeeded.")
 more5("C18", "a GUID kept as bytes is taken apart in its in-structure layout; node fields are decoded in the order their structure declares; the UTF-16 byte-order policy of C17.")
 more5("C19", "no output in map iteration order; pooled state is reset on every path that used it.")
+
+def more6(i, extra):
+    t, text, ref = CLAIMS[i]
+    CLAIMS[i] = (t, text + " Added with the sixth batch (DESIGN.md §10.9): " + extra, ref)
+
+more6("C01", "nothing puts a bounded view between the image reader and the hash (J9.unbounded); a part of the concatenating reader that returns its last bytes together with io.EOF has them counted (J10.eofdata: this rule found and led to the repair of multi.ReadAt).")
+more6("C02", "the signed attributes are parsed without dropping anything and re-encoded from one wire form (A.lossless, X3.pair, shared with C16); the signature checked is exactly the signer entry's encrypted digest (A.sig-exact); the digest covers the content with exactly one header taken off (A.content-value); no bounded view of the hashed image (J9.unbounded); J10.eofdata.")
+more6("C03", "J10.eofdata (the digest that is signed covers the last part of the image whatever way the reader reports its end).")
+more6("C04", "nothing consumed from the signed attributes is dropped (A.lossless: this rule found and led to the repair of parseAttributes); parser and encoder of the attributes agree field by field, one wire form per field (X3.pair); the signature operand is exactly the parsed encrypted digest, stored exactly as read (A.sig-exact); the digest covers the [0] content with exactly one header taken off (A.content-value); a pointer field the parser fills only on some paths is nil-tested before use (N4.partial).")
+more6("C05", "the signer identifier is issuerAndSerialNumber unconditionally (L5.sid); a function literal kept for later does not capture the loop variable (X6.distinct); no bounded view of the hashed image (J9.unbounded).")
+more6("C06", "the payload that is signed and the payload that is emitted come from the same encoder (I9.samepayload); every list is written (G8.all).")
+more6("C07", "no error of the decoding layer is dropped (G4.surface); nothing reads ahead on the decoder's stream, also through a re-bound variable (G12.exact); a removal drops only the list it emptied (K2.paired).")
+more6("C08", "no error of the decoding layer is dropped (G4.surface); every accepted list has SignatureSize >= 16, empty lists included (A-d.size-min); an error wrapped with a second %w is still io.EOF-transparent (G4.eof); the stream is not re-bound to a read-ahead reader (G12.exact).")
+more6("C09", "membership is exact: a 'found' answer needs owner and data equality (K11.exact); a mutator that can run twice in one operation does not fail half-way (K0.atomic in loops); every entry the list decoder reads is kept (K2.decoded).")
+more6("C10", "where the reader keeps a header field the writer emits that field, not a constant (G1.fromvalue).")
+more6("C11", "the write path touches the file system only with open-for-write, Write and Close (F1.touch); the value handed to WriteVar is encoded without being consumed (E.pure); the store keeps nothing about variables outside the file system (F16.stateless); after the decoder accepted a value the read path does not refuse it (F15.final).")
+more6("C12", "F1.touch, F16.stateless (the in-memory store and the wrapper keep no per-variable state); what is stored after a signed update is the rest of the input behind the descriptor, not a re-encoding (F10.exact).")
+more6("C13", "no input-driven recursion (R.recurse); no String/Error method that formats its own receiver (B.selfformat); a pass over the hashed stream inside a loop over table entries leaves the loop (T12.rehash: reports (*PECOFFBinary).Verify on the unchanged tree, recorded as a known finding); N4.partial.")
+more6("C14", "R.recurse, B.selfformat over the variable decoders.")
+more6("C15", "a forwarder fed from a reader kept in a struct field does not drop its error (C1.dropped, field readers).")
+more6("C17", "ParseUtf16Var refuses nothing but a decoder error or a missing terminator (A-u.refuse) and returns only what the x/text decoder produced (A-u.source).")
+more6("C18", "A-u.refuse / A-u.source for descriptions; the decoder's verdict on a load option is final (F15.final).")
+more6("C19", "a decoded value shares no memory with its input (G9.copy).")
